@@ -140,7 +140,7 @@ CLAIMED = {
              "normalize returns empty-or-absolute. Every run drives BOTH real Python clients (through stub paho/aiomqtt "
              "modules) and the Lean model on random concurrent request histories with interleaved, duplicate, late and "
              "malformed messages and compares each caller's result; an independent reference reading of the history is the oracle."
-             " source_dispatch_is_model: the dispatcher decision tables extracted from the Python AST of async_.py and sync.py on every run (run by the Lean driver against the real clients) equal the model's dispatch; _Path.normalize as translated from common.py equals the model's normalize and its assert never fails.",
+             " source_dispatch_is_model: the dispatcher decision tables extracted from the Python AST of async_.py and sync.py on every run (run by the Lean driver against the real clients) equal the model's dispatch; _Path.normalize as translated from common.py equals the model's normalize and its assert never fails. source_do_tail_is_model: the statements of Miniconf._do after the wait and the response= of get/set/list/clear/dump, translated from both clients on every run, equal the model's post.",
         note="Thread/asyncio scheduling is not modelled: dispatcher steps are atomic (they are, per client, by the GIL + paho "
              "callback thread / single event loop). uuid1 freshness is a hypothesis. Trusted: stub MQTT modules, pydriver.py.",
         tech="Lean 4 proof (induction over message lists) + model-vs-implementation correspondence against both real Python clients"),
